@@ -354,7 +354,7 @@ func c16Garbage(r *rand.Rand) []byte {
 			}
 			out = append(out, encodeCmd(a)...)
 		case 6: // malformed HTTP
-			out = append(out, []byte(fmt.Sprintf("GET /%s HTTP/1.1\r\nContent-Length: %d\r\n\r\n", strings.Repeat("%zz", r.Intn(3)), r.Intn(50)-10))...)
+			out = append(out, badHTTP(r)...)
 		default: // valid command with unusual option order
 			out = append(out, encodeCmd(valid())...)
 		}
@@ -401,6 +401,10 @@ func runC16Containment(w *World, n *Node) {
 	for i := 0; i < nf; i++ {
 		i := i
 		p := w.program(fmt.Sprintf("fuzz%d", i), func(r *rand.Rand) []Cmd {
+			if r.Intn(3) == 0 {
+				// a connection that speaks (bad) HTTP from its first byte
+				return []Cmd{{Raw: string(badHTTP(r)), Pipe: true}, {Args: []string{"PING"}, Pipe: true}}
+			}
 			return []Cmd{{Raw: string(c16Garbage(r)), Pipe: true}, {Args: []string{"PING"}, Pipe: true}}
 		})
 		a := w.addActor(n, simAddr(fmt.Sprintf("127.0.0.1:%d", 50100+i)), p)
@@ -439,4 +443,36 @@ func runC16Containment(w *World, n *Node) {
 	w.sigExtra = ""
 	w.sample = map[string]interface{}{"seed": w.seed, "mode": "containment", "fuzzed_connections": nf, "bystander_ops": hc.nChecked,
 		"garbage_head": clipStr(strings.ToValidUTF8(fz[0].prog[0].Raw, "?"), 120)}
+}
+
+// badHTTP builds an HTTP request that is malformed or degenerate in one of several ways: bad
+// escapes, paths and bodies that hold nothing but argument separators, odd methods, lying or
+// negative Content-Length, missing version.
+func badHTTP(r *rand.Rand) []byte {
+	pieces := []string{"%zz", "+", "%20", "%2", "%", "a+b", "/", "?x=1", "%00", "+%20+", "ping", "%0d%0a"}
+	if r.Intn(3) == 0 {
+		pieces = []string{"+", "%20", "+", "%09"} // nothing but argument separators
+	}
+	path := "/"
+	for i, n := 0, r.Intn(4); i < n; i++ {
+		path += pieces[r.Intn(len(pieces))]
+	}
+	method := []string{"GET", "GET", "POST", "POST", "PUT", "HEAD", "get", "G\x00T", ""}[r.Intn(9)]
+	version := []string{" HTTP/1.1", " HTTP/1.1", " HTTP/1.0", "", " HTTP/9.9", " FTP/1.1"}[r.Intn(6)]
+	body := []string{"", " ", "  \t ", "+", "\r\n", "ping", "set k1"}[r.Intn(7)]
+	cl := len(body)
+	switch r.Intn(5) {
+	case 0:
+		cl = r.Intn(50) - 10
+	case 1:
+		cl += 1 + r.Intn(3)
+	}
+	hdr := fmt.Sprintf("Content-Length: %d\r\n", cl)
+	if r.Intn(5) == 0 {
+		hdr = ""
+	}
+	if r.Intn(6) == 0 {
+		hdr += "Authorization: \r\n"
+	}
+	return []byte(method + " " + path + version + "\r\n" + hdr + "\r\n" + body)
 }
